@@ -117,6 +117,9 @@ def sanitizer_candidates(thorough):
     return cand
 
 
+import tools.c04_search  # noqa: F401  (fail loudly at start if the sanitizer search tool does not even import)
+
+
 class SanitizerSweep:
     """runs tools/c04_search.py on a candidate list in a background thread (so that in the quick tier
     it overlaps with `lake build`)"""
@@ -127,8 +130,8 @@ class SanitizerSweep:
         self.t.start()
 
     def _run(self):
+        from tools import c04_search   # outside the try: a broken search tool is an internal error (exit 2), never silence
         try:
-            from tools import c04_search
             self.found, self.executed = c04_search.run(self.cand)
         except Exception as e:   # the search itself failing is not a verdict about the code
             self.error = repr(e)[:500]
